@@ -26,6 +26,7 @@ from __future__ import annotations
 import contextlib
 import itertools
 import json
+import os
 import warnings
 from typing import Any, Callable, Optional
 
@@ -629,12 +630,20 @@ def export(prog: Prog):
 # ----------------------------------------------------------------------------- the check
 
 
-def check_op_semantics(chk: Check) -> None:
+OPS_PAIRS = [[a, b] for a in range(-7, 8) for b in range(-7, 8) if b != 0]
+OPS_POW = [[a, b] for a in range(-5, 6) for b in range(0, 5)]
+
+
+def op_semantics_requests() -> list:
+    return [json.dumps({"op": "ops", "pairs": OPS_PAIRS}), json.dumps({"op": "ops", "pairs": OPS_POW})]
+
+
+def check_op_semantics(chk: Check, answers: list) -> None:
     """ONNX int64 Div/Mod/Max/Min/Pow as modelled in Lean vs ONNX Runtime; Python // and % vs Lean fdiv/fmod."""
     import onnx
     from onnx import helper, TensorProto
-    pairs = [[a, b] for a in range(-7, 8) for b in range(-7, 8) if b != 0]
-    ans = json.loads(common.run_driver("C04", [json.dumps({"op": "ops", "pairs": pairs})])[0])
+    pairs = OPS_PAIRS
+    ans = json.loads(answers[0])
     A = np.array([p[0] for p in pairs], dtype=np.int64)
     Bv = np.array([p[1] for p in pairs], dtype=np.int64)
     bad = []
@@ -648,8 +657,8 @@ def check_op_semantics(chk: Check) -> None:
         if got.tolist() != ans[key]:
             bad.append(op)
     # Pow with non-negative exponent
-    pp = [[a, b] for a in range(-5, 6) for b in range(0, 5)]
-    ansp = json.loads(common.run_driver("C04", [json.dumps({"op": "ops", "pairs": pp})])[0])["pow"]
+    pp = OPS_POW
+    ansp = json.loads(answers[1])["pow"]
     g = helper.make_graph([helper.make_node("Pow", ["a", "b"], ["c"])], "g",
                           [helper.make_tensor_value_info("a", TensorProto.INT64, [None]),
                            helper.make_tensor_value_info("b", TensorProto.INT64, [None])],
@@ -828,7 +837,6 @@ def run(chk: Check) -> None:
     rng = common.Rng(chk.seed)
     thorough = chk.tier == "thorough"
     proved = chk.prove(MODS, checker=thorough)
-    check_op_semantics(chk)
 
     progs = corpus_programs(rng) + template_programs() + random_programs(rng, 40 if not thorough else 400)
     stats = {"programs": 0, "not_exportable": 0, "sessions": 0, "calls": 0, "exprs": 0, "tree_equal": 0,
@@ -874,7 +882,12 @@ def run(chk: Check) -> None:
             reqs.append(json.dumps({"op": "session", "syms": prog.syms, "bindings": [list(p) for p in full],
                                     "events": evs}))
             owner.append((pi, sid))
-    answers = [json.loads(a) for a in common.run_driver("C04", reqs)] if reqs else []
+    pre = op_semantics_requests()          # one driver process for everything
+    if os.environ.get("VERIF_DUMP_DRIVER_REQS"):
+        open(os.environ["VERIF_DUMP_DRIVER_REQS"], "w").write("\n".join(pre + reqs) + "\n")
+    raw = common.run_driver("C04", pre + reqs)
+    check_op_semantics(chk, raw[:len(pre)])
+    answers = [json.loads(a) for a in raw[len(pre):]]
     per_prog: dict[int, list] = {}
     for (pi, sid), ans in zip(owner, answers):
         per_prog.setdefault(pi, []).append((sid, ans))
